@@ -20,6 +20,12 @@ type swarm struct {
 	remap                                 bool
 }
 
+// DecoyDir is a directory on the REAL disk that holds files of the same names
+// as the simulated ones, with different content: a renderer that goes around
+// pass.ReadFile (os.ReadFile, os.Open) shows decoy text, which the simulated
+// disk never served. Fixed path, identical content for every process.
+const DecoyDir = "/var/tmp/verifsim-decoy/p"
+
 var allFaults = []string{"eio", "enoent", "short", "empty"}
 
 const alphabet = "abcdefghijklmnopqrstuvwxyzABCDEFGHIJKLMNOPQRSTUVWXYZ0123456789 _(){}[]=+-*/.,;:<>!&|^%\"'"
@@ -190,7 +196,7 @@ func Generate(t *core.Tape, opt core.RunOpt, agg *core.Agg) *Case {
 		if sw.bom && t.Chance(1, 2) {
 			content = "\xef\xbb\xbf" + content // a UTF-8 byte order mark: three bytes that go/token counts in line 1's columns
 		}
-		f := File{Name: fmt.Sprintf("/sim/p/f%d.go", i), Content: core.Text(content)}
+		f := File{Name: fmt.Sprintf("%s/f%d.go", DecoyDir, i), Content: core.Text(content)}
 		lines, _ := splitLines([]byte(f.Content))
 		for _, l := range lines {
 			lineCounts[i] = append(lineCounts[i], len(l))
@@ -203,7 +209,7 @@ func Generate(t *core.Tape, opt core.RunOpt, agg *core.Agg) *Case {
 		f.RemapFrom = t.Range(1, len(lineCounts[i]))
 		switch t.Draw(3) {
 		case 0:
-			f.RemapName = "/sim/p/generated.y" // not on the disk
+			f.RemapName = DecoyDir + "/generated.y" // not on the simulated disk
 		case 1:
 			f.RemapName = c.Files[t.Draw(nfiles)].Name
 		default:
@@ -269,7 +275,22 @@ func genReport(t *core.Tape, c *Case, fi int, lens []int, limit int) Op {
 // between type-checking and reporting.
 func editContent(t *core.Tape, sw *swarm, limit int, old string) string {
 	lines := strings.SplitAfter(old, "\n")
-	switch t.Draw(6) {
+	switch t.Draw(7) {
+	case 6: // same size, other text (two lines swapped, or every letter rotated)
+		if len(lines) >= 2 && t.Chance(1, 2) {
+			i, j := t.Draw(len(lines)), t.Draw(len(lines))
+			if strings.HasSuffix(lines[i], "\n") == strings.HasSuffix(lines[j], "\n") {
+				lines[i], lines[j] = lines[j], lines[i]
+			}
+			return strings.Join(lines, "")
+		}
+		b := []byte(old)
+		for k, ch := range b {
+			if ch >= 'a' && ch < 'z' {
+				b[k] = ch + 1
+			}
+		}
+		return string(b)
 	case 0: // emptied
 		return ""
 	case 1: // last lines removed
